@@ -2,7 +2,7 @@
 they belong to: C05, C06, C10, C11).
 Models: coq/theories/AsmMAxi.v (FSolver::StaticAxisymmetric linear path; WriteStatic2D label lines and
 the written flux 2 pi r A), AsmMHAxi.v (FSolver::HarmonicAxisymmetric linear path; WriteHarmonic2D);
-theorems: Properties_XAXI.v.  Correspondence: generated axisymmetric .fem problems -> real fmesher ->
+theorems: Properties_C05_axi.v, Properties_C06_axi.v, Properties_C10_axi.v, Properties_C11_axi.v.  Correspondence: generated axisymmetric .fem problems -> real fmesher ->
 harness h_fsolver_axi (real LoadProblemFile / LoadMesh / Cuthill / StaticAxisymmetric or
 HarmonicAxisymmetric) dumps the solver's data, the libm values (cos/sin, logarithms, complex exp / tanh)
 and the assembled system; the float reading of the models must reproduce matrix, right-hand side,
@@ -18,7 +18,7 @@ from femgen import Builder, UNITS, mesh_diameter
 from props import c05, c05_gen
 
 LEVEL = "proof"
-COQ_MODULES = ["AsmMAxi"]
+COQ_MODULES = ["AsmMAxi", "AsmMHAxi"]
 ASSUMPTIONS = [
     "theorems are about the real-number reading (pairs of reals for the harmonic model); rounding is not bounded",
     "linear materials only (BHpoints = 0): the Newton / successive-approximation branches, previous-solution (incremental / "
@@ -34,7 +34,7 @@ ASSUMPTIONS = [
     "the linear solve itself is C09's subject; here the written potentials are checked against an independent assembly",
 ]
 HEADER = ("From Coq Require Import ZArith List Floats. Import ListNotations. "
-          "From XF Require Import Arith Sparse CSparse AsmE AsmM AsmMH AsmMAxi.")
+          "From XF Require Import Arith Sparse CSparse AsmE AsmM AsmMH AsmMAxi AsmMHAxi.")
 MU0 = 4e-7 * math.pi
 HARNESS = "h_fsolver_axi"
 
@@ -116,7 +116,12 @@ def gen_problem(rng, harmonic=False, size_nodes=40, force=None):
     anti = rng.random() < 0.5
     fam = rng.choice(["A0", "Axy"])
     if pbc:
+        # bottom and top tied: a prescribed A on the right / left side must agree with the tie at the corners,
+        # so only the constant property is used, and the value 0 for antiperiodic pairs
         bd["per"] = B.prop("bdryprops", name="per", type=5 if anti else 4)
+        fam = "A0"
+        if anti:
+            p["bdryprops"][bd["A0"] - 1]["A_0"] = 0.0
         picked = ["per", rng.choice([fam, "mixed"]), "per", rng.choice([fam, "mixed", None])]
         if picked[1] != fam and picked[3] != fam:
             picked[1] = fam
@@ -272,6 +277,8 @@ STRATA = {   # k mod 12 -> forced configuration
     5: dict(x0=0.0, boxes=["magnet", "iron"], two=True, external=True),
     6: dict(x0=0.0, boxes=["wire", "jblock"]),
     7: dict(x0=0.0, boxes=["iron", "magnet"], main_iron=True),
+    9: dict(x0=0.0, boxes=["wire", "solid"]),                                                   # harmonic: ProximityMu, Case 2
+    11: dict(x0=0.0, boxes=["solid", "coil"], coil_mode="parallel", coil_sigma=10.0, coil_J=0.5),  # harmonic: Case 2 next to the axis
 }
 
 
@@ -283,7 +290,7 @@ def gen(rng, quick, k):
     return gen_problem(rng, harmonic=(HARMONIC and k % 2 == 1), size_nodes=size, force=force)
 
 
-HARMONIC = False          # switched on once AsmMHAxi exists
+HARMONIC = True
 
 
 # ---------------------------------------------------------------------------- dump ----
@@ -321,7 +328,17 @@ def to_coq_static(d):
 
 
 def to_coq_harmonic(d):
-    raise NotImplementedError
+    f = vlib.fhexs
+    cpx = c05.cpx
+    X = "[%s]" % "; ".join("mkHExp %s %s %s %s %s %s" % tuple(cpx(b[k]) for k in ("ex", "ey", "hx", "hy", "tx", "ty"))
+                           for b in d["blocks"])
+    PM = "[%s]" % "; ".join(cpx(l["proxmu"]) for l in d["labels"])
+    V = d["V"]
+    Vc = "[%s]" % "; ".join(cpx((V[2 * i], V[2 * i + 1])) for i in range(len(V) // 2))
+    return ("let AP := %s in let X := %s in let PM := %s in let fr := %s in let r := asmMHAxi FA AP X PM fr %d %s in "
+            "let bf := hawritten FA (ap AP) fr %s in "
+            "(cdump_rows FA (CSparse.cM (fst r)) ++ flat (cb (fst r)), haside_outputs FA AP X PM fr (snd r) bf, flat bf)"
+            % (coq_aprob(d), X, PM, f(d["freq"]), d["bw"], f(d["prec"]), Vc))
 
 
 impl_static = c05.impl_static
@@ -492,7 +509,9 @@ def oracle(p, ans):
     for (i, j, t) in ans["pbcs"]:
         tied[i] = (j, t); tied[j] = (i, t)
     free = [i for i in range(nn) if i not in presc and i not in tied]
-    tot = max(float(np.linalg.norm(mag)), 1e-300)
+    # the solvers stop on |b - M V| / |b| over ALL rows; the rows of circuits whose voltage gradient is an extra
+    # unknown (Case 2) carry 2*0.01*Amps, which dwarfs the node rows in fine length units
+    tot = max(float(np.linalg.norm(list(mag) + list(ans.get("circ_rows", [])))), 1e-300)
     if free:
         rel = float(np.linalg.norm(r[free])) / tot
         if rel > 2e-6:
@@ -532,6 +551,34 @@ def oracle(p, ans):
 
 
 # ------------------------------------------------------------------------ run cases ----
+def parse_ans(path, harmonic):
+    """the [Solution] section the real fsolver wrote: nodes (x, y in length units, flux), elements (the first four
+    columns p0 p1 p2 lbl; later columns — edge markers, Jprev — are not used here), per-label circuit lines, PBCs"""
+    L = open(path).read().split("\n")
+    i = next(k for k, l in enumerate(L) if l.strip() == "[Solution]") + 1
+    nn = int(L[i]); i += 1
+    nodes = []
+    for k in range(nn):
+        t = L[i + k].split()
+        if harmonic:
+            nodes.append((float(t[0]), float(t[1]), complex(float(t[2]), float(t[3])), int(t[4])))
+        else:
+            nodes.append((float(t[0]), float(t[1]), float(t[2]), int(t[3])))
+    i += nn
+    ne = int(L[i]); i += 1
+    elems = [tuple(int(x) for x in L[i + k].split()[:4]) for k in range(ne)]
+    i += ne
+    nl = int(L[i]); i += 1
+    labels = []
+    for k in range(nl):
+        t = L[i + k].split()
+        labels.append((int(t[0]), complex(float(t[1]), float(t[2])) if harmonic else float(t[1])))
+    i += nl
+    npbc = int(L[i]); i += 1
+    pbcs = [tuple(int(x) for x in L[i + k].split()) for k in range(npbc)]
+    return dict(nodes=nodes, elems=elems, labels=labels, pbcs=pbcs)
+
+
 def run_case(ctx, name, p):
     """fmesher, harness (keeps the mesh files), then the real fsolver binary; returns (dump, ans, error)"""
     exe = vlib.build_harness(ctx.snap, HARNESS, libs=("fsolver", "femm"))
@@ -550,19 +597,21 @@ def run_case(ctx, name, p):
     if rc2 != 0 or not os.path.exists(ansf):
         return d, None, "fsolver failed (rc=%d) on a well-formed problem: %s" % (rc2, (out + err)[-300:])
     try:
-        ans = c05.parse_ans(ansf, p["frequency"] != 0)
+        ans = parse_ans(ansf, p["frequency"] != 0)
     except Exception as e:
         return d, None, "the solution file written by fsolver cannot be parsed: %r" % (e,)
     if d["fail"] or rc != 0 or not d.get("solved"):
         return d, ans, "solver pipeline failed inside the harness: %s rc=%d solved=%s" % (d["fail"], rc, d.get("solved"))
     ans["proxmu"] = [l["proxmu"] for l in d["labels"]]
+    # magnitude of the right-hand side of the Case 2 circuit rows, in the oracle's normalisation (code row / 2)
+    ans["circ_rows"] = [0.01 * abs(complex(*c["amps"])) for c, r in zip(d["circs"], d["circres"]) if r[0] == 2]
     return d, ans, None
 
 
 def correspond(ctx):
     rng = ctx.rng
     count = 24 if ctx.quick() else 96
-    limit = 500 if ctx.quick() else 900
+    limit = 300 if ctx.quick() else 900
     dis, exprs, cases, feats = [], [], [], {}
     sizes = []
     for k in range(count):
